@@ -353,6 +353,36 @@ func (c *Ctx) nonExhaustiveSelection(b *ssa.BasicBlock, k int, id ssa.Value) str
 	return "the element compared with the id is selected by an index that is not a scan position (" + c.P.InstrPos(ia) + ")"
 }
 
+// foundWitnessAt: like foundWitness for an arbitrary instruction (a store of the success value).
+func (c *Ctx) foundWitnessAt(at ssa.Instruction, id ssa.Value) (string, bool) {
+	fn := at.Parent()
+	for _, b := range fn.Blocks {
+		if len(b.Succs) != 2 {
+			continue
+		}
+		for k := 0; k < 2; k++ {
+			if !eng.EdgeDominates(b, k, at.Block()) {
+				continue
+			}
+			if idEqualityEdge(b, k, id) && c.nonExhaustiveSelection(b, k, id) == "" {
+				return "id-equality branch at " + c.P.InstrPos(eng.IfOf(b)), true
+			}
+			r, ok := eng.EdgeRel(b, k)
+			if !ok || r.Op != token.NEQ {
+				continue
+			}
+			x, y := r.X, r.Y
+			if eng.IsNilConst(x) {
+				x, y = y, x
+			}
+			if eng.IsNilConst(y) && c.foundPtr(x, id, b, 0) {
+				return "non-nil test of the looked-up message at " + c.P.InstrPos(eng.IfOf(b)), true
+			}
+		}
+	}
+	return "", false
+}
+
 // foundWitness: ret is dominated by an id-equality edge or by `p != nil` with foundPtr(p).
 func (c *Ctx) foundWitness(ret *ssa.Return, id ssa.Value) (string, bool) {
 	fn := ret.Parent()
@@ -439,6 +469,38 @@ func (c *Ctx) checkMutator(sm *storeModel, fn *ssa.Function, id ssa.Value, res *
 			return // definitely an error return
 		}
 		site := c.P.InstrPos(ret)
+		// the result is a variable (possibly assigned inside a closure): each assignment of a
+		// value that may be nil must itself be witnessed; assignments of the not-found
+		// sentinel provide the ErrNotExist return
+		if ad := eng.LoadAddr(e); ad != nil {
+			if cell := eng.CellOf(ad); cell != nil && !eng.CellEscapes(cell) {
+				sts := eng.CellStores(cell)
+				allOK, n := len(sts) > 0, 0
+				for _, s2 := range sts {
+					if u, ok := s2.Val.(*ssa.UnOp); ok && u.Op == token.MUL && u.X == ssa.Value(sm.errNotExist) {
+						res.hasNotExit = true
+						continue
+					}
+					sv := an.Eval(s2.Val, eng.Facts{}, s2.Block())
+					if !sv.MayBeNil() {
+						continue
+					}
+					n++
+					// witness at the assignment: id as seen from the assigning function
+					sid := id
+					if s2.Parent() != fn {
+						sid = id // captured parameters are followed by derivesFrom through their cells
+					}
+					if _, ok := c.foundWitnessAt(s2, sid); !ok {
+						allOK = false
+					}
+				}
+				if allOK && n > 0 {
+					res.ok = append(res.ok, fmt.Sprintf("%s (result variable: every success assignment is witnessed)", site))
+					return
+				}
+			}
+		}
 		if why, ok := c.foundWitness(ret, id); ok {
 			res.ok = append(res.ok, fmt.Sprintf("%s (%s)", site, why))
 		} else {
